@@ -12,6 +12,24 @@ type PropDef struct {
 var propOrder = []string{"C01", "C02", "C03", "C04", "C05", "C06", "C07", "C08", "C09", "C11", "C12", "C13", "C14", "C15", "C16", "C17", "C18", "C19", "C20"}
 
 var props = map[string]*PropDef{
+	"C14": {
+		Rules:      []string{"NULL-1", "MERGE-1", "ANYPATH-1"},
+		Decided:    "(in progress)",
+		NotDecided: "(in progress)",
+		Technique:  "structural",
+	},
+	"C03": {
+		Rules:      []string{"ANYPATH-1", "INTERN-1"},
+		Decided:    "(in progress)",
+		NotDecided: "(in progress)",
+		Technique:  "structural",
+	},
+	"C04": {
+		Rules:      []string{"CODEC-1", "FLAGSYM-1"},
+		Decided:    "(in progress)",
+		NotDecided: "(in progress)",
+		Technique:  "sibling agreement",
+	},
 	"C15": {
 		Rules:      []string{"ALIAS-1"},
 		Decided:    "(in progress)",
@@ -19,13 +37,13 @@ var props = map[string]*PropDef{
 		Technique:  "structural",
 	},
 	"C17": {
-		Rules:      []string{"PREC-1", "USER-1", "USER-2", "ERR-1"},
+		Rules:      []string{"PREC-1", "USER-1", "USER-2", "ERR-1", "ANYPATH-1"},
 		Decided:    "(in progress)",
 		NotDecided: "(in progress)",
 		Technique:  "structural ordering + bracket rule",
 	},
 	"C08": {
-		Rules:      []string{"NS-1", "NS-2", "NS-3", "MAPCACHE-1", "TXN-1"},
+		Rules:      []string{"NS-1", "NS-2", "NS-3", "MAPCACHE-1", "TXN-1", "MERGE-1"},
 		Decided:    "(in progress)",
 		NotDecided: "(in progress)",
 		Technique:  "guard dominance + path-sensitive dataflow",
